@@ -412,8 +412,8 @@ def m_hash(x):
     d = _dunder(x, "__hash__")
     if d is not None:
         return d(x)
-    if deep_sym(x, 3):
-        return HashKey(x)
+    if isinstance(x, (str, SStr, tuple, SInt)):
+        return HashKey(x)        # also for concrete values: keys must be comparable with keys of symbolic values
     return hash(x)
 
 
